@@ -376,9 +376,21 @@ def tr_multi(fn):
             elif isinstance(t, ast.Name) and isinstance(v, ast.Call) and isinstance(v.func, ast.Attribute) \
                     and v.func.attr == "reshape" and isinstance(v.func.value, ast.Name) \
                     and env.get(v.func.value.id) == ("param", "points_batch") and not v.keywords:
-                if "mu_reshape" in ir:
+                if "mu_points" in ir:
                     bad(st, "second reshape")
-                ir["mu_reshape"] = dims_of_args(v.args)
+                ir["mu_points"] = f"LReshape {dims_of_args(v.args)}"
+                pts_name = t.id
+                env[t.id] = ("reshaped",)
+            elif isinstance(t, ast.Name) and isinstance(v, ast.Call) and isinstance(v.func, ast.Attribute) \
+                    and v.func.attr == "transpose" and isinstance(v.func.value, ast.Name) \
+                    and env.get(v.func.value.id) == ("param", "points_batch") and not v.keywords:
+                # repaired variant (finding F60): points = points_batch.transpose(a, b)
+                if "mu_points" in ir:
+                    bad(st, "second layout statement")
+                axes = [int_const(a) for a in v.args]
+                if len(axes) != 2 or any(a is None or a < 0 for a in axes):
+                    bad(st, "transpose axes are not two non-negative literals")
+                ir["mu_points"] = f"LTranspose {axes[0]} {axes[1]}"
                 pts_name = t.id
                 env[t.id] = ("reshaped",)
             else:
@@ -445,7 +457,7 @@ def tr_multi(fn):
         else:
             bad(st, "make_multi_confmaps: statement form")
         i += 1
-    need = ["mu_zeros", "mu_reshape", "mu_call", "mu_comb", "mu_ret"]
+    need = ["mu_zeros", "mu_points", "mu_call", "mu_comb", "mu_ret"]
     if any(k not in ir for k in need):
         bad(fn, "make_multi_confmaps: incomplete skeleton " + str([k for k in need if k not in ir]))
     return "{| " + "; ".join(f"{k} := {ir[k]}" for k in need) + " |}"
@@ -596,19 +608,26 @@ ITEMS = [
     ("make_confmaps", "gen_confmaps", "texpr", tr_confmaps,
      "forall pts xv yv sig, denote_confmaps gen_confmaps pts xv yv sig = as_tval (make_confmaps pts xv yv sig)",
      "denote_confmaps_canon"),
+    # two admissible bodies (finding F60): the pinned tree's reshape + broadcast loop denotes
+    # ConfMaps.make_multi_confmaps; the repaired transpose loop denotes Entry.make_multi_confmaps_ps on
+    # every rectangular array.  The statement is chosen by the layout statement found in the source
+    # (see `variant_of`); a body that is neither closes neither theorem.
     ("make_multi_confmaps", "gen_multi", "multi_ir", tr_multi,
-     "forall pts n_nodes xv yv sig, denote_multi gen_multi pts n_nodes xv yv sig = "
-     "Some (make_multi_confmaps pts n_nodes xv yv sig)", "denote_multi_canon"),
+     {"pinned": ("forall pts n_nodes xv yv sig, denote_multi gen_multi pts n_nodes xv yv sig = "
+                 "Some (make_multi_confmaps pts n_nodes xv yv sig)", "denote_multi_canon"),
+      "repaired": ("forall pts n_nodes xv yv sig, rect pts -> denote_multi gen_multi pts n_nodes xv yv sig = "
+                   "Some (make_multi_confmaps_ps pts n_nodes xv yv sig)", "denote_multi_canon_fixed")}, None),
     ("generate_confmaps", "gen_genc", "genc_ir", tr_genc,
      "(forall pts H W sigma s, denote_genc gen_genc (SVP3 pts) H W sigma s = Some (generate_confmaps3 pts H W sigma s)) /\\ "
      "(forall pts H W sigma s, denote_genc gen_genc (SVP4 pts) H W sigma s = Some (generate_confmaps4 pts H W sigma s))",
      "(conj denote_genc_canon3 denote_genc_canon4)"),
     ("generate_multiconfmaps", "gen_genm", "genm_ir", tr_genm,
-     "(forall pts n_nodes H W num sigma s, denote_genm gen_genm false (SVP4 pts) n_nodes H W num sigma s = "
-     "Some (generate_multiconfmaps pts n_nodes H W num sigma s)) /\\ "
-     "(forall cents n_nodes H W num sigma s, denote_genm gen_genm true (SVP3 cents) n_nodes H W num sigma s = "
-     "Some (generate_multiconfmaps_centroids cents H W num sigma s))",
-     "(conj denote_genm_canon_instances denote_genm_canon_centroids)"),
+     # the callee make_multi_confmaps is read in either variant fx (Entry.mmc)
+     "(forall fx pts n_nodes H W num sigma s, denote_genm fx gen_genm false (SVP4 pts) n_nodes H W num sigma s = "
+     "Some (generate_multiconfmaps_v fx pts n_nodes H W num sigma s)) /\\ "
+     "(forall fx cents n_nodes H W num sigma s, denote_genm fx gen_genm true (SVP3 cents) n_nodes H W num sigma s = "
+     "Some (generate_multiconfmaps_centroids_v fx cents H W num sigma s))",
+     "(conj denote_genm_canon_instances_v denote_genm_canon_centroids_v)"),
 ]
 
 IR_HEADER = """(* GENERATED by translator/c01_confmaps2coq.py from {files} (sha1 {sha}) — do not edit.
@@ -623,14 +642,20 @@ OBLIG_HEADER = """(* GENERATED by translator/c01_confmaps2coq.py — per-run obl
    Closed with the once-and-for-all theorem about the canonical description,
    which type-checks only if the regenerated term is convertible to it. *)
 From Coq Require Import List ZArith QArith.
-From SV Require Import C01.ConfMaps C01.Lemmas C01.Entry C01.TExpr C01.Lemmas2.
+From SV Require Import C01.ConfMaps C01.Lemmas C01.Entry C01.TExpr C01.Lemmas2 C01.Lemmas3.
 From C01Gen Require Import C01_ConfmapsIR.
 """
 
 
+def variant_of(term):
+    """Which variant of make_multi_confmaps the regenerated description is (by its layout statement)."""
+    return "repaired" if "LTranspose" in term else "pinned"
+
+
 def translate(repo):
     """Returns {"sha1", "terms": {py: coq term}, "errors": {py: message}, "ir": text of the IR file,
-    "obligs": {py: (file name, text)}}.  `load` errors (file / signature level) propagate as Unsupported."""
+    "obligs": {py: (file name, text)}, "multi_variant": "pinned" | "repaired" | None}.
+    `load` errors (file / signature level) propagate as Unsupported."""
     fns, sha = load(repo)
     terms, errors = {}, {}
     for py, coq, ty, tr, _, _ in ITEMS:
@@ -640,13 +665,17 @@ def translate(repo):
             errors[py] = str(e)
     ir = IR_HEADER.format(files=", ".join(FILES.values()), sha=sha)
     obligs = {}
+    variant = None
     for py, coq, ty, tr, stmt, thm in ITEMS:
         if py in terms:
+            if isinstance(stmt, dict):
+                variant = variant_of(terms[py])
+                stmt, thm = stmt[variant]
             ir += f"\n(* {py} *)\nDefinition {coq} : {ty} :=\n  {terms[py]}.\n"
             txt = OBLIG_HEADER.format(py=py)
             txt += f"\nTheorem {coq}_denotes :\n  {stmt}.\nProof. exact {thm}. Qed.\nPrint Assumptions {coq}_denotes.\n"
             obligs[py] = (f"C01_Oblig_{py}.v", txt)
-    return {"sha1": sha, "terms": terms, "errors": errors, "ir": ir, "obligs": obligs}
+    return {"sha1": sha, "terms": terms, "errors": errors, "ir": ir, "obligs": obligs, "multi_variant": variant}
 
 
 if __name__ == "__main__":
